@@ -73,7 +73,7 @@ def _norm_expr(e):
     return ("other", repr(e))
 
 
-def validate(world, pre_blocks, failure=False, cache_cfg=None, orig_cfg=None, pre_symbol_refs=None, reordered=False):
+def validate(world, pre_blocks, failure=False, cache_cfg=None, orig_cfg=None, pre_symbol_refs=None, reordered=False, pre_order=None):
     """Raise core.Violation('C05', ...) if the IR is not closed / well
     formed / serializable.  ``pre_blocks``: uuids of blocks that existed
     before the session (new blocks must not overlap anything)."""
@@ -142,7 +142,7 @@ def validate(world, pre_blocks, failure=False, cache_cfg=None, orig_cfg=None, pr
         if not reordered:
             # (adjacency at deletion time cannot be reconstructed once layout
             # has reordered the intervals of a section)
-            _zero_sized(world, pre_blocks)
+            _zero_sized(world, pre_blocks, pre_order)
     else:
         if orig_cfg is not None and ir.cfg is not orig_cfg:
             raise core.Violation("C05", "cfg-object-replaced", {"what": "ir.cfg is not the caller's CFG object after the failure"}, {"kind": "replaced"})
@@ -191,9 +191,14 @@ def _first_diff(a, b, path=""):
     return None
 
 
-def _zero_sized(world, pre_blocks):
+def _zero_sized(world, pre_blocks, pre_order=None):
     """Zero-sized blocks may remain only in the documented cases
-    (doc/Deletion.md, plus the entry-point / DT_INIT / DT_FINI condition)."""
+    (doc/Deletion.md, plus the entry-point / DT_INIT / DT_FINI condition).
+    The cases speak about the block that follows *when the block is
+    deleted*: for a block that existed before the session that is its
+    successor in the pre-session address order (modifications are applied
+    in address order); blocks that were already zero-sized before the
+    session were judged in the session that emptied them."""
     m = world.module
     cfi = m.aux_data.get("cfiDirectives")
     cfi_blocks = set()
@@ -203,23 +208,38 @@ def _zero_sized(world, pre_blocks):
                 cfi_blocks.add(key.element_id.uuid)
     for sect in m.sections:
         bl = sorted(sect.byte_blocks, key=lambda b: (b.address if b.address is not None else -1, b.size != 0))
+        po = (pre_order or {}).get(sect.name)
+        pidx = {t[0]: i for i, t in enumerate(po)} if po is not None else {}
         for i, b in enumerate(bl):
-            if b.size != 0 or b.uuid in pre_blocks and False:
+            if b.size != 0:
                 continue
             others = [x for x in bl if x is not b]
             nxt = next((x for x in bl[i + 1 :]), None)
             prv = bl[i - 1] if i > 0 else None
+            nxt_code = isinstance(nxt, gtirb.CodeBlock)
+            prv_code = isinstance(prv, gtirb.CodeBlock)
+            pre_incoming = False
+            if b.uuid in pidx:
+                j = pidx[b.uuid]
+                if po[j][2] == 0:
+                    continue
+                nxt_code = j + 1 < len(po) and po[j + 1][1]
+                prv_code = j > 0 and po[j - 1][1]
+                pre_incoming = po[j][3]
             ok = False
-            why = []
-            if any(True for _ in b.references) and not others:
+            if any(True for _ in b.references) and not [x for x in others if x.uuid in pre_blocks]:
+                # (blocks made during the session - alignment padding in
+                # particular - were not there to take the symbols)
                 ok = True
             if isinstance(b, gtirb.CodeBlock):
                 nonft = [e for e in b.incoming_edges if not (e.label and e.label.type == gtirb.Edge.Type.Fallthrough)]
-                if nonft and not isinstance(nxt, gtirb.CodeBlock):
+                # (edges that came from code behind the block were still
+                # there when it was deleted, whatever became of them later)
+                if (nonft or pre_incoming) and not nxt_code:
                     ok = True
-                if b.uuid in cfi_blocks and not isinstance(prv, gtirb.CodeBlock) and not isinstance(nxt, gtirb.CodeBlock):
+                if b.uuid in cfi_blocks and not prv_code and not nxt_code:
                     ok = True
-                if (m.entry_point is b or _aux_is(m, "elfDynamicInit", b) or _aux_is(m, "elfDynamicFini", b)) and not isinstance(nxt, gtirb.CodeBlock):
+                if (m.entry_point is b or _aux_is(m, "elfDynamicInit", b) or _aux_is(m, "elfDynamicFini", b)) and not nxt_code:
                     ok = True
             if not ok:
                 raise core.Violation(
